@@ -138,6 +138,11 @@ class Verdict:
         }
         env.dump_json(out_dir("evidence") / f"{self.prop}.json", evidence)
         if self.unlisted:
+            kinds = {}
+            for rec in self.unlisted:
+                k = f"{rec.get('kind')}/{rec.get('rule')}"
+                kinds[k] = kinds.get(k, 0) + 1
+            print("  unlisted by kind/rule: " + ", ".join(f"{k}={n}" for k, n in sorted(kinds.items(), key=lambda t: -t[1])[:30]))
             print(f"RESULT property={self.prop} violated unlisted={len(self.unlisted)} "
                   f"evaluations={coverage['evaluations']} wall_s={evidence['wall_s']}")
             return 1
